@@ -78,3 +78,22 @@ Example hydrated_example :
   hydrated_hist false [RecordFailure; RecordFailure; Crash; Reconcile; RecordSuccess] = true /\
   srun [RecordFailure; RecordFailure; Crash; Reconcile; RecordSuccess] = ([false; false; true], CFalse).
 Proof. vm_compute. split; reflexivity. Qed.
+
+(* ---- limits of the sequential statement (see C20/Concurrent.v) ---- *)
+From KV Require Import C20.Concurrent.
+
+(* a reconcile whose three steps (dry run, condition patch, record) are not interleaved is the sequential step *)
+Theorem uninterleaved_reconcile_is_step : forall (s : sys) (x : bool),
+  crun s [CDry 0 x; CPatch 0; CUpd x] = step s (if x then RecordSuccess else RecordFailure).
+Proof. exact sequential_is_step. Qed.
+Print Assumptions uninterleaved_reconcile_is_step.
+
+(* Without optimistic locking the condition-tracks-window invariant would NOT survive interleaving two reconciles at
+   method granularity. The real patches use client.MergeFromWithOptimisticLock, which rejects the last patch of this
+   race (its resourceVersion is stale) and the reconcile is retried; the lock itself is not part of this model, so
+   this theorem documents why the lock is needed rather than a defect. *)
+Theorem cond_matches_window_interleaved_without_lock_refuted :
+  let s := crun race_start race in
+  condn s = CTrue /\ wstatus (window s) = Unhealthy /\ window s = [true; false; false; true].
+Proof. exact interleaved_reconciles_break_tracking. Qed.
+Print Assumptions cond_matches_window_interleaved_without_lock_refuted.
